@@ -2,7 +2,7 @@ from __future__ import print_function
 
 import sys
 from bisect import insort
-from ast import iter_fields, Store, Load, NodeVisitor, parse, Tuple, List, AST
+from ast import iter_fields, Store, Load, NodeVisitor, parse, Tuple, List, AST, Name
 
 try:
     from ast import Starred
@@ -201,6 +201,16 @@ class get_name_usages_visitor(NodeVisitor):
         # type: (AstName) -> None
         if isinstance(node.ctx, Load):
             self.locations.append(node)
+
+    def visit_AugAssign(self, node):
+        # type: (AST) -> None
+        self.visit(node.value)  # type: ignore[attr-defined]
+        target = node.target  # type: ignore[attr-defined]
+        if type(target) is Name:
+            # an augmented assignment reads its target
+            self.locations.append(target)
+        else:
+            self.visit(target)
 
 
 class get_all_usages_visitor(NodeVisitor):
